@@ -406,6 +406,10 @@ func runC14(r *Report, tier string) {
 		}
 		r.floor("R14.6", nx, 1, "non-failure exits of the key decoder")
 	}
+	// serialising is a pure function of the key: the bytes returned are the
+	// caller's own (a second serialisation cannot change the first)
+	r.rule("R19.4", "(shared with C19) Key.MarshalCBOR returns fresh memory: the encoder's result, never a buffer that outlives the call.")
+	checkEncoderOutputFresh(r, "R19.4", "Key")
 }
 
 // c14Reconstruct: PublicKey / PrivateKey feed X, Y, D from x, y, d.
